@@ -65,7 +65,7 @@ class Ctx:
 
     # ---------------------------------------------------------------- building /repo
     def build_pixman(self, flavour="plain"):
-        """Static libpixman from /repo's working tree, in scratch. flavours: plain, asan, asanonly, tsan, glyphsmall."""
+        """Static libpixman from /repo's working tree, in scratch. flavours: plain, asan, tsan."""
         if flavour in self.builds:
             return self.builds[flavour]
         bdir = self.scratch / f"build-{flavour}"
@@ -74,9 +74,6 @@ class Ctx:
         if flavour == "asan":
             margs += ["-Db_sanitize=address,undefined", "-Db_lundef=false"]
             cargs += " -fno-sanitize-recover=all -fno-omit-frame-pointer"
-        elif flavour == "asanonly":   # AddressSanitizer + LeakSanitizer without UBSan (C20: pixel-level UB is not its subject)
-            margs += ["-Db_sanitize=address", "-Db_lundef=false"]
-            cargs += " -fno-omit-frame-pointer"
         elif flavour == "tsan":
             margs += ["-Db_sanitize=thread", "-Db_lundef=false"]
         elif flavour == "glyphsmall":
@@ -110,8 +107,6 @@ class Ctx:
         flags = ["-O1", "-g", "-DHAVE_CONFIG_H", f"-D{GUARD}", "-I", str(VERIF / "harness")] + build["inc"]
         if build["flavour"] == "asan":
             flags += ["-fsanitize=address,undefined", "-fno-sanitize-recover=all"]
-        if build["flavour"] == "asanonly":
-            flags += ["-fsanitize=address", "-fno-omit-frame-pointer"]
         if build["flavour"] == "tsan":
             flags += ["-fsanitize=thread"]
         cmd = ["g++" if cxx else "gcc"] + flags + list(extra) + [str(VERIF / "harness" / s) for s in srcs] + ["-o", str(exe)]
